@@ -51,6 +51,10 @@ def binop(op, a, b):
     if not (isinstance(a, (Rat, Vec)) or isinstance(b, (Rat, Vec))):
         if isinstance(op, ast.Div) and all(isinstance(x, (int, Fraction)) and not isinstance(x, bool) for x in (a, b)) and b != 0:
             return c(Fraction(a) / Fraction(b))  # true division of whole numbers stays exact
+        if isinstance(op, ast.Div) and all(isinstance(x, (int, Fraction)) and not isinstance(x, bool) for x in (a, b)) and b == 0:
+            from .peval import Raised
+
+            raise Raised("ZeroDivisionError")
         return NO_MATCH
     a, b = coerce(a), coerce(b)
     if a is None or b is None:
